@@ -1239,8 +1239,11 @@ R"(
         }
         uint32_t tsc = _rdtsc();
         if (unlikely(last_tsc != tsc)) {
-            last_tsc = tsc;
+            // publish the refreshed clock before marking this TSC epoch as
+            // handled: last_tsc is shared by all vCPUs, and another vCPU that
+            // sees the mark skips its own refresh and trusts `now`
             update_now();
+            last_tsc = tsc;
             return true;
         }
         return false;
